@@ -14,7 +14,9 @@
 //
 // Rules of the translation (all conservative unless stated):
 //   - memory is named by type: `T.f` (field f of struct T of pkg/cmd), `T.f[]` (the elements of the map / slice
-//     held in T.f), `var x`, `local F.x` (a local of F captured by a closure); a value struct of pkg/cmd stands
+//     held in T.f), `var x`, `local F.x` (a local of F captured by a closure that can leave the activation of F:
+//     started with `go`, passed as an argument, stored, sent, returned; a closure that is only called or deferred
+//     where it is made leaves the variables it captures thread-local); a value struct of pkg/cmd stands
 //     for all its fields, a struct of another package is one opaque cell; a pointer of unknown origin is named by
 //     its element type;
 //   - an access to an object allocated in the running function is NOT listed as long as no instruction through
